@@ -675,8 +675,11 @@ static const char *SHAPES[] = { NULL /* absent */, "null", "true", "0", "1.5", "
 				"\"\\u00b0\\u00b0\\u00b0\\u00b0\"", "\"AA\\u20acA\"", "\"==\"", "\"=AAA\"", "\"AAAA=AAAA\"",
 				/* well-formed but over-long values: 48 and 69 octets (longer than any EC coordinate of the templates) */
 				"\"QUJDQUJDQUJDQUJDQUJDQUJDQUJDQUJDQUJDQUJDQUJDQUJDQUJDQUJDQUJDQUJD\"",
-				"\"QUJDQUJDQUJDQUJDQUJDQUJDQUJDQUJDQUJDQUJDQUJDQUJDQUJDQUJDQUJDQUJDQUJDQUJDQUJDQUJDQUJDQUJDQUJD\"" };
-#define NSHAPE 23
+				"\"QUJDQUJDQUJDQUJDQUJDQUJDQUJDQUJDQUJDQUJDQUJDQUJDQUJDQUJDQUJDQUJDQUJDQUJDQUJDQUJDQUJDQUJDQUJD\"",
+				/* filled in by c07_templates(): 600 characters (longer than any fixed-size scratch area), once decodable, once with a foreign character */
+				NULL, NULL };
+#define NSHAPE 25
+static char LONGSHAPE[2][640];
 static const char *shape_label(int i) { return SHAPES[i] ? SHAPES[i] : "<absent>"; }
 
 static json_t *TEMPL[12];
@@ -687,6 +690,14 @@ static void c07_templates(void)
 {
 	unsigned char k[32];
 	vk_oct_bytes(5, k, 32);
+	for (int i = 0; i < 2; i++) {
+		LONGSHAPE[i][0] = '"';
+		memset(LONGSHAPE[i] + 1, 'Q', 600);
+		if (i)
+			LONGSHAPE[i][301] = '!';
+		strcpy(LONGSHAPE[i] + 601, "\"");
+		SHAPES[NSHAPE - 2 + i] = LONGSHAPE[i];
+	}
 #define ADDT(nm, j) do { templ_name[NTEMPL] = nm; TEMPL[NTEMPL++] = (j); } while (0)
 	ADDT("RSA-private", json_deep_copy(vk_get("rsa2048a")->priv_jwk));
 	ADDT("RSA-public", json_deep_copy(vk_get("rsa2048a")->pub_jwk));
